@@ -276,7 +276,7 @@ def case_refusal(ctx, index, rng: random.Random):
     rec.mon("C05.add.refusal")
     e1 = gen.edges(rng, rng.randint(1, 6))
     a = physt.h1(np.asarray(gen.data_for_bins(rng, gen.pairs_from_edges(e1), 10)), np.array(e1))
-    kind = rng.choice(["bins", "dim", "nonhist", "array", "adaptive_missed"])
+    kind = rng.choice(["bins", "dim", "nonhist", "array", "adaptive_missed", "array_after_free_block"])
     with attach.quiet():
         sa = snap.snapshot(a)
     sb = None
@@ -296,6 +296,16 @@ def case_refusal(ctx, index, rng: random.Random):
                 r = a + rng.choice([1, 2.5, "x", None])
             elif kind == "array":
                 r = a + np.ones(a.shape)
+            elif kind == "array_after_free_block":
+                from physt.config import config
+
+                try:
+                    with config.enable_free_arithmetics():
+                        _ = a + np.ones(a.shape)  # accepted here
+                        _ = a + np.ones(a.shape[0] + 1)  # wrong shape: the exception leaves the block
+                except Exception:
+                    pass
+                r = a + np.ones(a.shape) if rng.random() < 0.5 else np.ones(a.shape) + a
             else:
                 w = rng.choice([0.5, 1.0])
                 g = physt.h1([0.2, 1.3], "fixed_width", bin_width=w, adaptive=True)
